@@ -31,12 +31,25 @@ func schemaFor(name string) []byte {
 	return []byte(`{"$comment":"` + name + `","type":"object","required":["ok"],"properties":{"ok":{"const":true}}}`)
 }
 
+// schemaWithGlobal: additionally constrains a value the chart receives through `global`
+func schemaWithGlobal(name string) []byte {
+	return []byte(`{"$comment":"` + name + `|g","type":"object","required":["ok"],"properties":{"ok":{"const":true},"global":{"type":"object","properties":{"gok":{"const":true}}}}}`)
+}
+
 func stubValidateSingle(values chartutil.Values, schemaJSON []byte) error {
 	s := string(schemaJSON)
 	a := strings.Index(s, `"$comment":"`) + len(`"$comment":"`)
 	name := s[a : a+strings.IndexByte(s[a:], '"')]
+	withGlobal := strings.HasSuffix(name, "|g")
+	name = strings.TrimSuffix(name, "|g")
 	schemaCalls = append(schemaCalls, name)
 	if ok, _ := values["ok"].(bool); ok {
+		if withGlobal {
+			g, _ := values["global"].(map[string]interface{})
+			if gok, present := g["gok"]; present && gok != true {
+				return fmt.Errorf("- at '/global/gok': value must be true\n")
+			}
+		}
 		return nil
 	}
 	return fmt.Errorf("- at '/ok': value must be true\n") // the real validator's text for ok: false
@@ -114,8 +127,16 @@ func h14(tree int) {
 	if hasSchema["c"] {
 		parent.Schema = schemaFor("c")
 	}
+	// s1's schema may also constrain a global the chart receives from above
+	globalBad := false
 	if hasSchema["s1"] {
 		s1.Schema = schemaFor("s1")
+		if ndBool("s1.schemaConstrainsGlobal") {
+			s1.Schema = schemaWithGlobal("s1")
+			globalBad = ndBool("globalViolates")
+			vAssume(!globalBad || valid["s1"]) // one reason per chart keeps the error text comparable
+			vals["global"] = map[string]interface{}{"gok": !globalBad}
+		}
 	}
 	if hasSchema["s2"] {
 		s2.Schema = schemaFor("s2")
@@ -163,7 +184,7 @@ func h14(tree int) {
 	for _, c := range names {
 		if enabled[c] && hasSchema[c] {
 			wantCalls++
-			if !valid[c] {
+			if !valid[c] || (c == "s1" && globalBad) {
 				violators = append(violators, c)
 			}
 		}
